@@ -39,6 +39,13 @@ Step(s0, e) ==
               IF why # "ok" THEN [ok |-> FALSE, s |-> s, why |-> why, dev |-> IF Insufficient(s, q) THEN "" ELSE TxDev(s, q, x)]
               ELSE [ok |-> TRUE, s |-> IF e.stored THEN Broadcast(s, x, e.tnum) ELSE s, why |-> "", dev |-> ""]
     [] e.op = "delete" -> [ok |-> TRUE, s |-> Delete(s, e.tnum), why |-> "", dev |-> ""]
+    \* the wallet files a transaction another wallet of the database made and broadcast (transaction_import + send): no judgement
+    \* of the transaction, its effect on the books is that of a broadcast; what the OTHER wallet later does with its copy
+    \* (delete) does not concern this wallet's books
+    [] e.op = "adopt" -> [ok |-> TRUE, s |-> Resend(s, X(e.x), e.tnum), why |-> "", dev |-> ""]
+    [] e.op = "co_delete" -> [ok |-> TRUE, s |-> s, why |-> "", dev |-> ""]
+    [] e.op = "resend" -> [ok |-> TRUE, s |-> Resend(s, X(e.x), e.tnum), why |-> "", dev |-> ""]
+    [] e.op = "remove_unconfirmed" -> [ok |-> TRUE, s |-> RemoveUnconfirmed(s), why |-> "", dev |-> ""]
     [] OTHER -> [ok |-> FALSE, s |-> s, why |-> "unknown-event", dev |-> ""]
 
 UtxoSet(l) == {<<l[i][1], l[i][2], l[i][3]>> : i \in 1..Len(l)}
